@@ -124,6 +124,81 @@ Proof.
       * unfold proceed, upd. prj. rewrite phase1_bb. reflexivity.
 Qed.
 
+
+(** the majority, once set, never changes; and the step that sets it touches only that
+    block's entry *)
+Lemma phase1_maj vs v i p : vs_maj23 (phase1 vs v i p) = vs_maj23 vs.
+Proof. unfold phase1. destruct (vote_at _ _); [destruct (maj_is _ _)|]; reflexivity. Qed.
+
+Lemma proceed_maj vs1 v i p q bv :
+  let s' := proceed vs1 v i p q bv in
+  (forall m, vs_maj23 vs1 = Some m -> vs_maj23 s' = Some m) /\
+  (vs_maj23 vs1 = None -> forall m, vs_maj23 s' = Some m ->
+   forall x, x <> m -> bb_find x (vs_byblock s') = bb_find x (vs_byblock vs1)).
+Proof.
+  cbv zeta. unfold proceed, upd. prj.
+  destruct (Z.ltb (bv_sum bv) q && Z.leb q (bv_sum (bv_add bv i v p))).
+  - split.
+    + intros m Hm. rewrite Hm. reflexivity.
+    + intros Hn m. rewrite Hn. intros E; injection E as <-. intros x Hx. rewrite bb_find_set.
+      assert (Ek : key_eqb (v_bid v) x = false) by (apply key_eqb_false; congruence). rewrite Ek. reflexivity.
+  - split; [auto|]. intros Hn m Hm. congruence.
+Qed.
+
+Lemma add_verified_maj s v i p s' a c :
+  add_verified s v i p = (s', a, c) ->
+  (forall m, vs_maj23 s = Some m -> vs_maj23 s' = Some m) /\
+  (vs_maj23 s = None -> forall m, vs_maj23 s' = Some m ->
+   forall x, x <> m -> bb_find x (vs_byblock s') = bb_find x (vs_byblock s)).
+Proof.
+  rewrite add_verified_eq. cbv zeta. intros H.
+  assert (Hstop : s' = phase1 s v i p ->
+            (forall m, vs_maj23 s = Some m -> vs_maj23 s' = Some m) /\
+            (vs_maj23 s = None -> forall m, vs_maj23 s' = Some m ->
+             forall x, x <> m -> bb_find x (vs_byblock s') = bb_find x (vs_byblock s))).
+  { intros ->. rewrite phase1_maj, phase1_bb. split; [auto|]. intros Hn m Hm. congruence. }
+  assert (Hgo : forall bv0, s' = proceed (phase1 s v i p) v i p (quorum (vs_vals s)) bv0 ->
+            (forall m, vs_maj23 s = Some m -> vs_maj23 s' = Some m) /\
+            (vs_maj23 s = None -> forall m, vs_maj23 s' = Some m ->
+             forall x, x <> m -> bb_find x (vs_byblock s') = bb_find x (vs_byblock s))).
+  { intros bv0 ->. pose proof (proceed_maj (phase1 s v i p) v i p (quorum (vs_vals s)) bv0) as Hp.
+    cbv zeta in Hp. rewrite phase1_maj, phase1_bb in Hp. exact Hp. }
+  destruct (bb_find (v_bid v) (vs_byblock (phase1 s v i p))) as [bv0|].
+  - destruct (is_some (vote_at (vs_votes s) i) && negb (bv_peermaj bv0)); injection H as <- _ _.
+    + apply Hstop; reflexivity.
+    + apply (Hgo bv0); reflexivity.
+  - destruct (is_some (vote_at (vs_votes s) i)); injection H as <- _ _.
+    + apply Hstop; reflexivity.
+    + apply (Hgo (fresh_bv (length (vs_vals s)))); reflexivity.
+Qed.
+
+Lemma step_maj s o :
+  let s' := fst (step s o) in
+  (forall m, vs_maj23 s = Some m -> vs_maj23 s' = Some m) /\
+  (vs_maj23 s = None -> forall m, vs_maj23 s' = Some m ->
+   forall x, x <> m -> bb_find x (vs_byblock s') = bb_find x (vs_byblock s)).
+Proof.
+  cbv zeta.
+  assert (Hsame : forall s', vs_maj23 s' = vs_maj23 s ->
+            (forall m, vs_maj23 s = Some m -> vs_maj23 s' = Some m) /\
+            (vs_maj23 s = None -> forall m, vs_maj23 s' = Some m ->
+             forall x, x <> m -> bb_find x (vs_byblock s') = bb_find x (vs_byblock s))).
+  { intros s' E. rewrite E. split; [auto|]. intros Hn m Hm. congruence. }
+  destruct o as [v|p b| |want hh c]; cbn [step]; try (cbn [fst]; apply Hsame; reflexivity).
+  - destruct (add_vote s v) as [[s' a] e] eqn:E. cbn [fst]. unfold add_vote in E.
+    destruct (N.eqb (v_addr v) 0); [injection E as <- _ _; apply Hsame; reflexivity|].
+    destruct (negb _); [injection E as <- _ _; apply Hsame; reflexivity|].
+    destruct (nth_error (vs_vals s) (N.to_nat (v_idx v))) as [val|]; [|injection E as <- _ _; apply Hsame; reflexivity].
+    destruct (negb (N.eqb (v_addr v) (val_addr val))); [injection E as <- _ _; apply Hsame; reflexivity|].
+    destruct (get_vote s (N.to_nat (v_idx v)) (v_bid v)) as [ex|].
+    { destruct (N.eqb (s_id (v_sig ex)) (s_id (v_sig v))); injection E as <- _ _; apply Hsame; reflexivity. }
+    destruct (negb _); [injection E as <- _ _; apply Hsame; reflexivity|].
+    destruct (add_verified s v (N.to_nat (v_idx v)) (val_power val)) as [[s1 a1] c1] eqn:Eav.
+    injection E as <- _ _. eapply add_verified_maj; eauto.
+  - destruct (set_peer_maj23 s p b) as [s' e] eqn:E. cbn [fst]. unfold set_peer_maj23 in E.
+    destruct (peer_find p (vs_peers s)); injection E as <- _; apply Hsame; reflexivity.
+Qed.
+
 (* ------------------------------------------------------------------ *)
 (** * Rejected votes leave the vote set unchanged (no reachability needed) *)
 
@@ -932,6 +1007,68 @@ Proof.
     destruct Hn as [u Hu]. destruct (K3 i u Hu) as [[Ho [Hidx Hval]] [Hb _]].
     apply Hne. rewrite <- Hb. apply (Hexcl i u); auto. }
   rewrite quorum_exact in Hq by exact Hwf. lia.
+Qed.
+
+(** ... or when every validator's first valid vote, if it has one, is for [b] (later
+    conflicting votes for other ids, admitted through peer claims, cannot overtake [b]). *)
+Definition hinv (done : list op) (s : voteset) : Prop :=
+  forall m, vs_maj23 s = Some m ->
+  exists pre suf s0, done = pre ++ suf /\ inv pre s0 /\ vs_maj23 s0 = Some m /\
+    forall x bv, x <> m -> bb_find x (vs_byblock s0) = Some bv -> bv_sum bv < quorum vals.
+
+Lemma step_hinv done s o : inv done s -> hinv done s -> hinv (done ++ [o]) (fst (step s o)).
+Proof.
+  intros Hinv Hh m Hm'. destruct (step_maj s o) as [Hkeep Hset]. cbv zeta in Hkeep, Hset.
+  destruct (vs_maj23 s) as [m0|] eqn:Em.
+  - rewrite (Hkeep m0 eq_refl) in Hm'. injection Hm' as <-.
+    destruct (Hh m0 Em) as [pre [suf [s0 [E [Hi0 [Hm0 Hlt]]]]]].
+    exists pre, (suf ++ [o]), s0. split; [rewrite E, app_assoc; reflexivity|auto].
+  - exists (done ++ [o]), [], (fst (step s o)). split; [rewrite app_nil_r; reflexivity|].
+    split; [apply step_inv; auto|split; [auto|]].
+    intros x bv Hx Hf. rewrite (Hset eq_refl m Hm' x Hx) in Hf.
+    destruct Hinv as [Hw _]. eapply (w_nomaj _ _ Hw); eauto.
+Qed.
+
+Lemma run_hinv ops : forall done s, inv done s -> hinv done s -> hinv (done ++ ops) (final s ops).
+Proof.
+  induction ops as [|o t IH]; intros done s Hinv Hh.
+  - rewrite app_nil_r. exact Hh.
+  - rewrite final_cons. replace (done ++ o :: t) with ((done ++ [o]) ++ t) by (rewrite <- app_assoc; reflexivity).
+    apply IH; [apply step_inv|apply step_hinv]; auto.
+Qed.
+
+Theorem complete_all_first ops A b :
+  let s := reach ops in
+  2 * sum_powers vals < 3 * mask_power vals A ->
+  (forall i, nth i A false = true -> exists v, first_valid ops i = Some v /\ v_bid v = b) ->
+  (forall i v, first_valid ops i = Some v -> v_bid v = b) ->
+  vs_maj23 s = Some b.
+Proof.
+  cbv zeta. intros HA Hfirst Hall. pose proof (complete ops A b HA Hfirst) as Hsome. cbv zeta in Hsome.
+  assert (Hh : hinv ops (reach ops)).
+  { apply (run_hinv ops [] _ init_inv). intros m Hm. discriminate. }
+  destruct (vs_maj23 (reach ops)) as [m|] eqn:Em; [|congruence].
+  destruct (bid_eqb m b) eqn:Emb; [apply bid_eqb_eq in Emb; congruence|]. exfalso.
+  assert (Hne : b <> m) by (intros E; symmetry in E; apply bid_eqb_eq in E; congruence).
+  destruct (Hh m Em) as [pre [suf [s0 [E [[Hw0 Hf0] [Hm0 Hlt]]]]]].
+  destruct (w_maj _ _ Hw0 _ Hm0) as [bvm [Hxm [Hq _]]].
+  destruct (w_bb _ _ Hw0 _ _ Hxm) as [_ [K2 K3]].
+  (** every validator present in m's entry is present in b's entry *)
+  assert (Hin : forall i, vote_at (bv_votes bvm) i <> None ->
+                exists bvb, bb_find b (vs_byblock s0) = Some bvb /\ vote_at (bv_votes bvb) i <> None).
+  { intros i Hn. apply not_none_ex in Hn. destruct Hn as [u Hu]. destruct (K3 i u Hu) as [Hg _].
+    pose proof (good_first _ _ _ Hg) as Hfv. apply not_none_ex in Hfv. destruct Hfv as [w Hw'].
+    assert (Hops : first_valid ops i = Some w) by (rewrite E, first_valid_app, Hw'; reflexivity).
+    rewrite <- (Hall i w Hops). apply Hf0; auto. }
+  pose proof quorum_pos as Hq1.
+  destruct (bb_find b (vs_byblock s0)) as [bvb|] eqn:Exb.
+  - assert (Hle : voters_power vals (bv_votes bvm) <= voters_power vals (bv_votes bvb)).
+    { apply voters_power_mono; [exact Hnonneg|]. intros i Hn. destruct (Hin i Hn) as [bvb' [E1 E2]]. congruence. }
+    destruct (w_bb _ _ Hw0 _ _ Exb) as [_ [K2b _]].
+    pose proof (Hlt b bvb Hne Exb). lia.
+  - assert (Hle : voters_power vals (bv_votes bvm) <= voters_power vals []).
+    { apply voters_power_mono; [exact Hnonneg|]. intros i Hn. destruct (Hin i Hn) as [bvb' [E1 _]]. discriminate. }
+    unfold voters_power in Hle at 2. cbn [map] in Hle. rewrite mask_power_nil_r in Hle. lia.
 Qed.
 
 End VoteSet.
